@@ -330,6 +330,14 @@ func init() {
 		}
 		return x.c.st.Const(32, 0o644)
 	}
+	intrinsics["(io/fs.FileMode).IsRegular"] = func(x *Exec, a []Value) Value {
+		m := a[0].(*Term)
+		return x.c.st.Eq(x.c.st.Bin(OpBAnd, m, x.c.st.Const(32, 0x8F280000)), x.c.st.Const(32, 0)) // no type bits set
+	}
+	intrinsics["(io/fs.FileMode).IsDir"] = func(x *Exec, a []Value) Value {
+		m := a[0].(*Term)
+		return x.c.st.Not(x.c.st.Eq(x.c.st.Bin(OpBAnd, m, x.c.st.Const(32, 1<<31)), x.c.st.Const(32, 0)))
+	}
 	intrinsics["fs.FileInfo.Name"] = func(x *Exec, a []Value) Value { return a[0].(*FileInfoObj).name }
 	intrinsics["fs.DirEntry.IsDir"] = func(x *Exec, a []Value) Value { return x.c.st.Bool(a[0].(*DirEntryObj).isDir) }
 	intrinsics["fs.DirEntry.Name"] = func(x *Exec, a []Value) Value { return a[0].(*DirEntryObj).name }
